@@ -216,33 +216,51 @@ func ruleStructDescriptor(c *Ctx) {
 	c.Oblige("T.desc-struct", got["name"], rng.Pos(), fn.Name(), "Elements[i].Name = f.name", "each element carries the field's name", nil)
 	// Type and TypeName
 	typeOK, nameOK, lenOK := false, false, false
-	ast.Inspect(fn.Decl.Body, func(n ast.Node) bool {
-		as, ok := n.(*ast.AssignStmt)
-		if !ok || len(as.Lhs) != 1 || len(as.Rhs) != 1 {
-			return true
-		}
-		sel, ok := as.Lhs[0].(*ast.SelectorExpr)
-		if !ok {
-			return true
-		}
-		switch sel.Sel.Name {
+	header := func(field string, rhs ast.Expr) {
+		switch field {
 		case "Type":
-			typeOK = constName(info, as.Rhs[0]) == "FieldTypeStruct"
+			typeOK = constName(info, rhs) == "FieldTypeStruct"
 		case "TypeName":
-			if call, ok := as.Rhs[0].(*ast.CallExpr); ok {
+			if call, ok := rhs.(*ast.CallExpr); ok {
 				if s2, ok := call.Fun.(*ast.SelectorExpr); ok && s2.Sel.Name == "Name" && isRecvField(s2.X, "rtype") {
 					nameOK = true
 				}
 			}
 		case "Elements":
-			if call, ok := as.Rhs[0].(*ast.CallExpr); ok && len(call.Args) == 2 {
+			if call, ok := rhs.(*ast.CallExpr); ok && len(call.Args) == 2 {
 				if l, ok := call.Args[1].(*ast.CallExpr); ok && len(l.Args) == 1 && isRecvField(l.Args[0], "fields") {
 					lenOK = true
 				}
 			}
 		}
-		return true
-	})
+	}
+	// the header is set field by field or in a composite literal of the result, outside the element loop
+	for _, st := range fn.Decl.Body.List {
+		if st == ast.Stmt(rng) {
+			continue
+		}
+		ast.Inspect(st, func(n ast.Node) bool {
+			switch x := n.(type) {
+			case *ast.AssignStmt:
+				if len(x.Lhs) == 1 && len(x.Rhs) == 1 {
+					if sel, ok := x.Lhs[0].(*ast.SelectorExpr); ok {
+						header(sel.Sel.Name, x.Rhs[0])
+					}
+				}
+			case *ast.CompositeLit:
+				if t := info.TypeOf(x); t != nil && typeName(t) == "Descriptor" {
+					for _, e := range x.Elts {
+						if kv, ok := e.(*ast.KeyValueExpr); ok {
+							if id, ok := kv.Key.(*ast.Ident); ok {
+								header(id.Name, kv.Value)
+							}
+						}
+					}
+				}
+			}
+			return true
+		})
+	}
 	c.Oblige("T.desc-struct", typeOK && nameOK && lenOK, fn.Decl.Pos(), fn.Name(), "Type=FieldTypeStruct, TypeName=rtype.Name(), len(Elements)=len(fields)",
 		fmt.Sprintf("struct descriptor header: type %v, type name %v, one element per encoded field %v", typeOK, nameOK, lenOK), nil)
 	c.Floor("T.desc-struct", 5)
